@@ -57,6 +57,7 @@ func checkC15(c *Ctx) {
 	r.Rule("C15.a", "base-type table: parser name tests composed with the printer", 7)
 	r.Rule("C15.f", "external types enter the enclosing scope only under their package-qualified names (a user type is never replaced by an external type of the same short name)", 5)
 	r.Rule("C15.g", "maximal munch never fuses the '>' closing a type-argument list with the character that may follow it", 7)
+	r.Rule("C15.h", "every copy of the base-type name table knows all five documented base types", 1)
 	r.Rule("C15.e", "every syntactic position of a type reaches parseType / parseTypeArrows", 5)
 	f := c.LoadFC("fc")
 	if f == nil {
@@ -65,6 +66,7 @@ func checkC15(c *Ctx) {
 	c.checkPins(f, "C15.bcd", c15Pins)
 	checkExternalNamesQualified(c, "C15.f", f)
 	checkLexerVsTypeSyntax(c, "C15.g", f)
+	checkBaseNameTables(c, "C15.h", f)
 	checkC15Atom(c, f)
 }
 
